@@ -513,6 +513,28 @@ def body_misc_combine(shape):
     return body
 
 
+class _Prefixed:
+    """Env proxy that prefixes variable names (several independent spectra within one unit body)."""
+    def __init__(self, env, prefix):
+        self._e, self._p = env, prefix
+        self.symbolic = env.symbolic
+
+    def __getattr__(self, k):
+        return getattr(self._e, k)
+
+    def real(self, name, *a, **kw):
+        return self._e.real(self._p + name, *a, **kw)
+
+    def array(self, name, *a, **kw):
+        return self._e.array(self._p + name, *a, **kw)
+
+    def eq(self, label, *a, **kw):
+        return self._e.eq(self._p + ':' + label, *a, **kw)
+
+    def holds(self, label, *a, **kw):
+        return self._e.holds(self._p + ':' + label, *a, **kw)
+
+
 def body_scramble(shape, labels, folded):
     def body(env):
         for corners in (True, False):
@@ -826,4 +848,16 @@ def units(tier, seed):
             dict(op='filter_pops', shape=list(shape), mask_corners=False), 4)
         add('combine_pops-folded-flag-%s' % sn, body_combine_folded_flag(shape),
             dict(op='combine_pops', shape=list(shape), folded=True), 4)
+    # ---- call history: the same operations on spectra that share the number of populations and the total sample size
+    #      but split it differently, within one process (a memo keyed on too little would go stale)
+    def body_hist(shapes):
+        bodies = [body_scramble(sh, False, False) for sh in shapes]
+
+        def body(env):
+            for k, b_ in enumerate(bodies):
+                b_(_Prefixed(env, 'h%d' % k))
+        return body
+    for shapes in ([(2, 4), (4, 2), (3, 3)], [(4, 2), (2, 4)], [(2, 2, 3), (3, 2, 2), (2, 3, 2)]):
+        add('hist-scramble-' + '_'.join('x'.join(map(str, sh)) for sh in shapes), body_hist(shapes),
+            dict(op='scramble_pop_ids history', shapes=[list(sh) for sh in shapes]), 10)
     return us
